@@ -126,6 +126,15 @@ class Machine:
             if any(v is True for v in vals):
                 return ('const', True)
             return ('const', False) if all(v is False for v in vals) else TOP
+        if k == 'localfunc':
+            # a function defined inside a method (a closure over self) stored in a field: found again by the identity of its node
+            for m_, c_ in s.cx.model.mro(s.mod, s.cls):
+                for fn in c_.body:
+                    if isinstance(fn, ast.FunctionDef):
+                        for x in ast.walk(fn):
+                            if isinstance(x, ast.FunctionDef) and id(x) == t[2]:
+                                return ('closure', m_, x)
+            return TOP
         if k == 'call':
             return TOP            # calls are evaluated where they happen (effects), their results cached by term
         return TOP
@@ -226,6 +235,8 @@ class Machine:
                 raise Stuck('%s on None' % name)
             if recv == ('self',):
                 if name in st:
+                    if st[name][0] not in ('method', 'bound', 'closure'):
+                        raise Stuck('self.%s is called but what it holds (%s) is not tracked' % (name, st[name][0]))
                     return s.call_value(st[name], args, st, choice, events, depth)
                 if s.cx.model.find_method(s.mod, s.cls, name) is not None:
                     res = s.run_method(name, args, st, choice, depth + 1)
@@ -262,6 +273,22 @@ class Machine:
             st2, oc, val, exn, ev2 = res[0]
             if oc == 'raise':
                 raise Stuck('self.%s raises %s' % (fv[1], exn))
+            st.clear()
+            st.update(st2)
+            events.extend(ev2)
+            return val
+        if fv[0] == 'closure':
+            fn = fv[2]
+            params = [a.arg for a in fn.args.args]
+            env = dict(zip(params, args))
+            res = []
+            for l in deep_leaves(s.cx, fv[1], s.cls, fn):
+                res += list(s.run_leaf(l, dict(st), env, choice, depth + 1))
+            if len(res) != 1:
+                raise Stuck('%d paths of the closure %s apply' % (len(res), fn.name))
+            st2, oc, val, exn, ev2 = res[0]
+            if oc == 'raise':
+                raise Stuck('closure %s raises %s' % (fn.name, exn))
             st.clear()
             st.update(st2)
             events.extend(ev2)
